@@ -336,6 +336,20 @@ func cmdCheck(args []string) int {
 		o := vc.ScanObligation(fmt.Sprintf("framescan(%s.%s)", fsc.Struct, fsc.Field), fmt.Sprintf("only %v store to %s.%s (found: %v)", fsc.Allowed, fsc.Struct, fsc.Field, writers), len(bad) == 0, fmt.Sprintf("unlisted writers: %v", bad))
 		obls = append(obls, o)
 	}
+	// global invariants rely on nobody storing to the globals they mention
+	if len(p.CS.GlobalInvs) > 0 {
+		stores := p.GlobalStores()
+		var bad []string
+		for _, gi := range p.CS.GlobalInvs {
+			for g, fs := range stores {
+				if strings.Contains(gi.Src, g) {
+					bad = append(bad, fmt.Sprintf("%s stored by %v", g, fs))
+				}
+			}
+		}
+		sort.Strings(bad)
+		obls = append(obls, vc.ScanObligation("globalscan", "package-level variables named in globalinv clauses are never stored to outside package initialisation", len(bad) == 0, strings.Join(bad, "; ")))
+	}
 	timeout := 10 * time.Second
 	if *tier == "thorough" {
 		timeout = 60 * time.Second
@@ -352,6 +366,7 @@ func cmdCheck(args []string) int {
 	bySolver := map[string]int{}
 	names := map[string]bool{}
 	covers, coversOK := 0, 0
+	var deadReturns []string
 	failedIn := map[string]bool{}
 	for _, r := range results {
 		if !r.Obl.Cover && r.Status != "unsat" {
@@ -367,6 +382,12 @@ func cmdCheck(args []string) int {
 			case "sat":
 				coversOK++
 			case "unsat":
+				if strings.Contains(r.Obl.Name, "#cover.ret") {
+					// an unreachable return statement: dead code (e.g. an error path a callee's contract excludes), reported
+					deadReturns = append(deadReturns, r.Obl.Name)
+					coversOK++
+					continue
+				}
 				if failedIn[r.Obl.Func] {
 					// a failed obligation is assumed afterwards, which may cut off everything behind it
 					continue
@@ -512,6 +533,22 @@ func cmdCheck(args []string) int {
 	for _, e := range solverErrs {
 		fmt.Println("ENGINE-NOTE", e)
 	}
+	{
+		known := map[string]bool{}
+		for _, n := range baseline["_dead:"+*prop] {
+			known[n] = true
+		}
+		for _, d := range deadReturns {
+			if !known[d] && !*updateBaseline {
+				fmt.Println("NOTE: return path unreachable in the model (dead code, or contradictory assumptions):", d)
+			}
+		}
+		if *updateBaseline {
+			sort.Strings(deadReturns)
+			baseline["_dead:"+*prop] = deadReturns
+			writeJSON(filepath.Join(verifDir, "obligations.baseline.json"), baseline)
+		}
+	}
 	for _, l := range lines {
 		fmt.Println(l)
 	}
@@ -598,6 +635,7 @@ func cmdCheck(args []string) int {
 			"by_solver":    bySolver,
 			"solver_seconds": roundMap(solverTime),
 			"vacuity_covers": covers, "vacuity_covers_reachable": coversOK,
+			"unreachable_return_paths": deadReturns,
 			"failed_obligations": failedNames(failed),
 			"open_known_findings": len(knownHit),
 			"bounded_standins": cfg.Bounded,
